@@ -170,10 +170,10 @@ func classifyMerge(doc M, name string) string {
 }
 
 var codecProbes = map[string][]string{
-	"IDTokenClaims":     {"iss", "sub", "aud", "exp", "azp", "nonce", "email", "act", "locale"},
-	"AccessTokenClaims": {"iss", "sub", "aud", "exp", "client_id", "jti", "scope", "act"},
-	"LogoutTokenClaims": {"iss", "sub", "aud", "exp", "jti", "sid"},
-	"UserInfo":          {"sub", "name", "email", "locale", "updated_at"},
+	"IDTokenClaims":             {"iss", "sub", "aud", "exp", "azp", "nonce", "email", "act", "locale"},
+	"AccessTokenClaims":         {"iss", "sub", "aud", "exp", "client_id", "jti", "scope", "act"},
+	"LogoutTokenClaims":         {"iss", "sub", "aud", "exp", "jti", "sid"},
+	"UserInfo":                  {"sub", "name", "email", "locale", "updated_at"},
 	"IntrospectionResponse":     {"active", "scope", "client_id", "username", "sub", "aud", "exp", "iss", "act"},
 	"JWTProfileAssertionClaims": {"iss", "sub", "aud", "exp", "iat"},
 	"JWTTokenRequest":           {"iss", "sub", "aud", "exp", "iat"},
